@@ -21,7 +21,8 @@ RULE = ("(a) seeded random workloads: 2..64 client goroutines over 1..8 connecti
         "clients per connection, each compared step by step with its own history; distinct = distinct (workload configuration, "
         "seed) and isolation rounds; (c) schedules: every stimulus script of the Lifetime.tla scenarios (renames racing with clunks, "
         "in-flight requests and the teardown of another connection, backend calls held at gates): every request the "
-        "specification answers must be answered (TLC: deadlock check of the specification with all deviations repaired)")
+        "specification answers must be answered (TLC: deadlock check of the specification with all deviations repaired); "
+        "(d) cells in which two walks look a fresh name up at the same instant (spin barrier): both and the following requests are answered")
 
 
 def tlc_part(s, tier):
@@ -147,6 +148,11 @@ def run(tier, seed):
         nondev = [j for j in judged if not j["dev"]]
         iso, sample = isolation(s, tier, seed, bindir, verdict)
         life = lifetime.part("C16", tier, seed, verdict)
+        nracy, stuck = pathlocks.racy_progress(s, 3 if tier == "quick" else 12)
+        for cell, what in stuck[:3]:
+            rp = vlib.save_replay("C16", {"cell": cell, "finding": what}, "racy")
+            verdict.violation(rp, "simultaneous first look-ups of one name (node %d, %s connection): %s" %
+                              (cell["a"]["n"], "second" if cell["cross"] else "same", what))
         states += life["states"]
         trans += life["transitions"]
         race_info = None
@@ -160,7 +166,7 @@ def run(tier, seed):
            "samples": [{"workload_configs": cfgs[:3]}, {"isolation_round": sample}],
            "evaluations": wl["runs"] + iso["rounds"] + life["evaluations"],
            "distinct_nontrivial": wl["runs"] + iso["rounds"] + life["evaluations"], "rule": RULE,
-           "lifetime": life["cov"],
+           "lifetime": life["cov"], "simultaneous_first_lookup_cells": nracy,
            "workload": wl, "isolation": iso, "backend_log_events_validated_by_TLC": wl["events"],
            "contract_conflicts_in_workload_logs": {"known_deviations": len(judged) - len(nondev), "other (owned by C07)": len(nondev)},
            "race_detector": race_info or "thorough tier only", "tlc_runs": runs, "exhaustive": False,
